@@ -72,6 +72,11 @@ func c02Corpus() map[string]string {
 		"s = \"str with \\\"quotes\\\" and \\n newline\"", "x = 1e10 + .5 + 0x1F + 1_000", "m = macro(a) { quote(unquote(a) + 1) }", "del(m.a); del(m[\"b\"])",
 		"x = a && (b || c) && !(d == e)", "x = (a => a + 1)(2)", "func() { 1 }()", "x = [1,2,3][1:][0]", "println(\"a\", 1, [2], {3: 4})",
 		"x := 1\ny := x++ + 2", "x = a; y = b", "if (a) { b }", "return", "for { break }",
+		// comment placements
+		"if x { a /* c */ }\nb", "if x { a } // c\nb", "if x { a // c\n}\nb", "/* c */ a\nb", "a /* c */\nb", "a // c1\n// c2\nb",
+		"func f() { /* only */ }\nf()", "func f() {\n\t// only\n}\nf()", "if x {\n\t/* first */ a\n\tb /* last */\n} else { /* e */ c }\nd",
+		"for i = 0:2 { a /* c */ }\nb", "x = 1 /* c1 */ /* c2 */\ny = 2", "// header\n\n\n// second\nx = 1\n\n\n\ny = 2\n\n",
+		"if a { b } else { c /* c */ }\nd", "func g() { return 1 /* r */ }\ng()", "m = {\"a\": 1, // one\n \"b\": 2}\nm", "x = [1, // one\n 2]\nx",
 	} {
 		add(s)
 	}
